@@ -221,7 +221,7 @@ class Run:
             self.corr_disagreements.append({"op": line, "real": real, "model": model, "meta": meta})
 
 
-READER_OPS = {"V3000", "V2000", "MOLTEXT", "FILE", "ATTRLINE", "TOKENIZE", "SPLICE"}
+READER_OPS = {"V3000", "V2000", "MOLTEXT", "FILE", "ATTRLINE", "TOKENIZE", "SPLICE"}   # not FILEPATH: the suffix refusal must be OSError
 
 
 def load_known_findings():
